@@ -63,6 +63,9 @@ CLAIMED = {
             "integer uuids, label and camera choices; z3 decides paired <=> same uuid and camera, one-to-one use, maximality of "
             "label-correct pairs and completeness of the uuid stage on every path; the classification scores are compared with "
             "their counting definitions through the real bucketing."),
+    "C08": ("4 C08", "get_positive_objects / get_negative_objects, Ap and Map are executed twice on the same symbolic results, under a "
+            "symbolic threshold vector and a symbolically looser one (all ordered pairs), with the real distance / IoU score "
+            "code; z3 decides TP-set inclusion, FN/FP count monotonicity and AP/APH/mAP monotonicity on every path."),
 }
 NA = {
     "C16": "dataset loading goes through the nuScenes devkit and file I/O; a symbolic stand-in for the devkit would be the "
